@@ -1125,8 +1125,8 @@ class LogixDriver(CIPDriver):
                 bit = tag_data.get("bit")
                 data_type = tag_data["tag_info"]["data_type_name"]
                 if bit is not None and tag_data["bool_elements"] is None:
-                    if tag_data["plc_tag"] not in bit_writes:
-                        try:
+                    try:
+                        if tag_data["plc_tag"] not in bit_writes:
                             request = ReadModifyWriteRequestPacket(
                                 self._sequence,
                                 tag_data["plc_tag"],
@@ -1134,14 +1134,14 @@ class LogixDriver(CIPDriver):
                                 -1 * (1 + len(bit_writes)),
                                 self._cfg["use_instance_ids"],
                             )
-                        except RequestError as err:
-                            tag_data["error"] = f"Invalid Tag Request - {err!r}"
-                            continue
-                        bit_writes[tag_data["plc_tag"]] = request
-                    else:
-                        request = bit_writes[tag_data["plc_tag"]]
+                        else:
+                            request = bit_writes[tag_data["plc_tag"]]
 
-                    request.set_bit(bit, tag_data["value"], tag_data["request_id"])
+                        request.set_bit(bit, tag_data["value"], tag_data["request_id"])
+                    except RequestError as err:
+                        tag_data["error"] = f"Invalid Tag Request - {err!r}"
+                        continue
+                    bit_writes[tag_data["plc_tag"]] = request
                     continue
 
                 try:
